@@ -5,6 +5,7 @@ import (
 	"math/rand"
 	"strings"
 
+	"verif/internal/grun"
 	"verif/internal/pgen"
 	"verif/internal/report"
 )
@@ -66,7 +67,7 @@ func checkC01(c *Ctx) {
 
 	var cases []PlainCase
 	// ---- type-directed part -------------------------------------------------------------------
-	sel := shapeSel{Forms: []string{"top", "field"}, QuickDeep: 50, QuickRand: 30, ThorRand: 600, BatchSize: 24,
+	sel := shapeSel{ExtraTypes: commonExtras, Forms: []string{"top", "field"}, QuickDeep: 50, QuickRand: 30, ThorRand: 600, BatchSize: 24,
 		Ops: func(t *pgen.Type, form string) []string { return []string{"x"} }}
 	batches := c.buildTypeBatches(sel)
 	forms := []string{"body", "closure", "var", "test"}
@@ -101,8 +102,6 @@ func checkC01(c *Ctx) {
 	}
 	// ---- configurations ------------------------------------------------------------------------
 	cases = append(cases, c01Configs(c)...)
-	// ---- functional plugins ---------------------------------------------------------------------
-	cases = append(cases, funcCasesC01(c)...)
 
 	results := make([][]*PlainOutcome, len(cases))
 	parallel(len(cases), 10, func(i int) { results[i] = c.runPlainCase(cases[i], true) })
@@ -111,6 +110,46 @@ func checkC01(c *Ctx) {
 		for _, oc := range rs {
 			c.judgeC01(oc, &nsample)
 		}
+	}
+	// ---- functional and concurrent plugins: generated signatures, compile only ------------------
+	var fitems []pgen.FItem
+	fitems = append(fitems, c15Items(c)...)
+	fitems = append(fitems, c16Items(c)...)
+	fitems = append(fitems, c17Items(c)...)
+	fitems = append(fitems, c18Items(c)...)
+	for _, oc := range c.runFuncBatchesOpt(fitems, 30, false, 0, true) {
+		c.Run.Eval(1)
+		if oc.Stage == "ok" {
+			c.Run.Distinct("func|" + oc.Item.Shape)
+			continue
+		}
+		sym := "exit0-does-not-compile:" + symptom(oc.Stderr)
+		if oc.Stage == "generate" {
+			sym = "generation-fails:" + symptom(oc.Stderr)
+		}
+		c.Run.Violate(report.Violation{Key: "op=" + oc.Item.Kind + "|" + sym, Summary: fmt.Sprintf("supported functional call rejected or miscompiled (%s): item %s %s", oc.Stage, oc.Item.ID, oc.Item.Shape),
+			Detail: trunc(oc.Stderr, 2000) + "\n--- item source ---\n" + trunc(oc.Item.Src, 1500), Files: persistTree(oc.Dir), Replay: replayScript("./p", "go build ./p || exit 1\nexit 0")})
+	}
+	// channel combinators and Do: the fixed packages of C19/C20
+	for name, files := range map[string]map[string]string{
+		"chan": {"go.mod": pgen.GoMod, "pa/pa.go": chanPkgA, "pb/pb.go": chanPkgB},
+		"do":   {"go.mod": pgen.GoMod, "pa/pa.go": doPkg},
+	} {
+		dir := c.Env.Dir("c01-" + name)
+		grun.WriteTree(dir, files)
+		WriteMon(dir)
+		g := c.Goderive(dir, []string{"./..."})
+		c.Run.Eval(1)
+		msg, stage := g.Stderr, "generate"
+		if g.Exit == 0 {
+			bl := c.Go(dir, "build", "./...")
+			msg, stage = bl.Stderr+bl.Stdout, "compile"
+			if bl.Exit == 0 {
+				c.Run.Distinct("func|concurrent-" + name)
+				continue
+			}
+		}
+		c.Run.Violate(report.Violation{Key: "op=concurrent-" + name + "|" + stage + ":" + symptom(msg), Summary: "the channel / Do helpers are rejected or miscompiled (" + stage + ")", Detail: trunc(msg, 2000), Files: persistTree(dir)})
 	}
 }
 
@@ -249,6 +288,8 @@ func opPlugins(op string, t *pgen.Type) []string {
 	lk := "[]" + t.Expr("", nil)
 	sk := "map[" + t.Expr("", nil) + "]struct{}"
 	switch op {
+	case "x":
+		return nil
 	case "equal":
 		return []string{"equal2|" + k}
 	case "equalc":
